@@ -95,6 +95,13 @@ def malformations(kind, case, rng):
         o0 = case['ordinal'][0]; Xo = X.copy(); Xo.loc[Xo.index[pos], o0] = 'not_in_ranking'
         mk('value_absent_from_ordinal_ranking', X=Xo)
     if kind in ('BinaryCarver', 'MulticlassCarver', 'ContinuousCarver'): mk('unsupported_sort_by', ctor=dict(sort_by='gini'))
+    if kind in ('BinaryCarver', 'MulticlassCarver'):
+        # near misses of the two supported names, the empty string, None
+        mk('unsupported_sort_by', ctor=dict(sort_by=rng.choice(['cramer', 'tschuprow', 'v', '', None, 'Cramerv', 'tschuprowt '])))
+    if kind == 'MulticlassCarver':
+        # two classes only once the labels are read as strings (what the carver works on): 0, 1, '0', '1'
+        ym = pd.Series([[0, 1, '0', '1'][i % 4] for i in range(len(y))], dtype=object, index=y.index)
+        mk('multiclass_carver_with_binary_target', y=ym)
     return out
 
 
@@ -162,7 +169,35 @@ def one(arg):
     return recs
 
 
+def one_utility(arg):
+    """the utility discretizers used directly: a second fit -- here with a sample that holds missing values the first one did not -- is refused and changes nothing"""
+    kind, seed = arg
+    rng = random.Random(seed); recs = []
+    case = zoo.random_case(rng, target='binary', allow_nan=False, with_dev=False, variants=True); cfg = dict(rng.choice(zoo.CONFIGS)); cfg['min_freq_mod'] = None
+    if not ob.applicable(kind, case): return recs
+    lit = dict(kind=kind, cfg=cfg, case=zoo.case_literal(case))
+    def rec(clause, ok, msg, extra=None): recs.append((clause, bool(ok), dict(lit, **(extra or {})) if not ok else dict(kind=kind, seed=seed, extra=extra), msg))
+    try: obj = ob.build(kind, case, cfg)
+    except Exception: return recs
+    X = case['X']; before = state_of(obj, X)
+    X2 = X.copy()
+    for j, f in enumerate(obj.features):
+        if f in X2.columns:
+            col = X2[f].astype(object) if X2[f].dtype != float else X2[f].copy()
+            col.iloc[(j * 3) % len(col)] = np.nan; col.iloc[(j * 3 + 1) % len(col)] = np.nan; X2[f] = col
+    for name, Xs in (('same_sample', X), ('sample_with_new_missing_values', X2)):
+        r = outcome(lambda: obj.fit(Xs, case['y']))
+        rec('fit#raises.AssertionError.second_fit_of_fitted_object', r[0] == 'reject', '%s: second fit (%s): %s' % (kind, name, r[0]), dict(malformation='second_fit_' + name))
+        after = state_of(obj, X); diff = [k for k in before if before[k] != after[k]]
+        rec('fit#frame.rejected_call_leaves_fitted_state_unchanged', not diff, '%s: after the second fit (%s): %r changed' % (kind, name, diff), dict(malformation='second_fit_' + name))
+        if diff: break
+    return recs
+
+
 def run(ctx):
+    nu = 12 if ctx.tier == 'quick' else 100
+    for recs in zoo.pmap(one_utility, [(k, ctx.seed * 31 + i) for i in range(nu) for k in ('OrdinalDiscretizer', 'CategoricalDiscretizer', 'ContinuousDiscretizer')]):
+        for clause, ok, wit, msg in recs: ctx.check(clause, clause.split('#')[0], ok, wit, msg)
     n = 8 if ctx.tier == 'quick' else 60
     args = [(k, ctx.seed * 1009 + i * 17 + j) for i in range(n) for j, k in enumerate(KINDS)]
     ctx.bound('malformed inputs', '%d valid seeded samples per class x every malformation of the property list, injected at a seeded row; before and after a successful fit' % n)
